@@ -176,6 +176,8 @@ def run_seq_case(sh, cI, indexing, U, order, gv, tol, threads, case):
         gv[3] = np.nan
         gv[ng - 2, 1] = np.inf
     ref = None
+    gv_in = gv.copy()
+    U_in = [np.array(U[g], float).copy() for g in order]
     for nt in threads:
         cI.cimaged11_omp_set_num_threads(nt)
         drlv2 = np.full(ng, 2.0)
@@ -201,6 +203,10 @@ def run_seq_case(sh, cI, indexing, U, order, gv, tol, threads, case):
         hist = np.bincount(ind.ga[ind.ga >= 0], minlength=len(ubis))
         if list(hist) != [int(x) for x in ind.gas]:
             sh.violation("fight_over_peaks:gas-not-histogram", case, {"gas": ind.gas, "hist": hist})
+    # the assignment only writes labels and errors: the g-vectors and the grains' matrices come back as they went in
+    if not (np.array_equal(gv, gv_in, equal_nan=True) and all(np.array_equal(U[g], u0) for g, u0 in zip(order, U_in))
+            and all(np.array_equal(a_, b_) for a_, b_ in zip(ind.ubis, U_in))):
+        sh.violation("assignment-modifies-the-g-vectors-or-the-grain-matrices", case, {"gv_changed": not np.array_equal(gv, gv_in, equal_nan=True)})
     sh.evaluations += 1
     if nontrivial(ubis, gv, tol):
         sh.nontrivial += 1
